@@ -21,7 +21,7 @@ ASSUMPTIONS = [
     "coefficients below 1e-9 in magnitude (cancellation residue such as x - x) count as zero",
     "rows are compared up to a renaming of the variables (assignment on column vectors); constraints without variables that hold trivially are dropped on both sides",
     "constraints built by fromfile are read back through the public value() of their functions at unit points",
-    "solve agreement is judged only when both solves return a status other than 'unknown' (op.solve itself is C12's business)",
+    "solve agreement is judged only when both solves return a status other than 'unknown', the file's LP meets the rank conditions of solvers.lp, its optimal value is insensitive to the 6-digit rounding (HiGHS on exact vs rounded data within 1e-5) and the original op itself agrees with HiGHS (op.solve itself is C12's business)",
 ]
 REQUIRED_COUNTERS = ["kind.roundtrip", "kind.file", "kind.nonlp", "check.writer.rows", "check.writer.columns",
                      "check.writer.free-bounds", "check.reader.rows", "check.reader.objective", "check.roundtrip.solve",
@@ -46,6 +46,10 @@ def run(ctx):
     from scipy.optimize import linear_sum_assignment
     from vlib.oracle import shadow as S, lpref, mps
     solvers.options["show_progress"] = False
+    try:
+        solvers.options["glpk"] = {"msg_lev": "GLP_MSG_OFF"}
+    except Exception:
+        pass
     mps.selftest(); lpref.selftest()
     INF = math.inf
     VNAMES = ["x", "y", "zz", "alpha", "beta_1", "w", "flowrate", "capacity", "q", "temperatureK", "u"]
@@ -368,8 +372,13 @@ def run(ctx):
             c.require((qi, qe) == (pi, pe), "roundtrip:number-of-rows", "original (ineq, eq) = %r, after round trip %r" % ((pi, pe), (qi, qe)))
             # ---- solve before / after; HiGHS on the shadow LP (exact data) and on the file's LP (6-digit data) arbitrates
             ref = lpref.solve(P["vars"], P["obj"], [(c_["tree"], c_["typ"]) for c_ in P["cons"]])
-            fst, fval = highs_file(mf)
-            if ref["status"] in ("optimal", "infeasible", "unbounded") and fst == ref["status"]:
+            fst, fval, rank_ok = highs_file(mf)
+            wellcond = fval is None or abs(fval - (ref["p"] - sconst)) <= 1e-5 * max(1.0, abs(fval)) if ref["p"] is not None else True
+            if not rank_ok:
+                ctx.count("solve.rank-conditions-of-solvers.lp-not-met")      # outside the documented domain of op.solve
+            elif not wellcond:
+                ctx.count("solve.optimal-value-sensitive-to-6-digit-rounding")
+            elif ref["status"] in ("optimal", "infeasible", "unbounded") and fst == ref["status"]:
                 want = {"optimal": "optimal", "infeasible": "primal infeasible", "unbounded": "dual infeasible"}[ref["status"]]
                 if fval is not None:
                     # the two references themselves: same optimal value up to the conditioning of the problem
@@ -381,8 +390,9 @@ def run(ctx):
                         res.append((prob.status, float(prob.objective.value()[0]) if prob.status == "optimal" else None))
                     except Exception as e:
                         res.append(("exc:" + type(e).__name__, None))
-                if all(not r[0].startswith("exc") and r[0] != "unknown" for r in res) and res[0][0] != want:
-                    ctx.count("solve.original-disagrees-with-reference")       # C12's business
+                if all(not r[0].startswith("exc") and r[0] != "unknown" for r in res) and \
+                        (res[0][0] != want or (want == "optimal" and abs(res[0][1] - ref["p"]) > 1e-4 * max(1.0, abs(ref["p"])))):
+                    ctx.count("solve.original-disagrees-with-reference")       # accuracy of op.solve itself: C12's business
                 elif all(not r[0].startswith("exc") and r[0] != "unknown" for r in res):
                     ctx.count("check.roundtrip.solve")
                     c.require(res[1][0] == want, "roundtrip:status-after-differs",
@@ -390,6 +400,18 @@ def run(ctx):
                     if res[1][0] == "optimal" == want:
                         qconst = probe_const(q)
                         err = abs((res[1][1] - qconst) - fval) / max(1.0, abs(fval))
+                        if err > 2e-3:
+                            # the interior-point solver loses digits on badly scaled data (C12's business): the
+                            # simplex back-end decides whether the round-tripped problem has the right optimum
+                            try:
+                                q.solve("dense", "glpk")
+                                if q.status == "optimal":
+                                    e2 = abs((float(q.objective.value()[0]) - qconst) - fval) / max(1.0, abs(fval))
+                                    if e2 <= 2e-3:
+                                        ctx.count("solve.default-solver-inaccurate-glpk-agrees")
+                                        err = e2
+                            except Exception:
+                                pass
                         ctx.maxobs("roundtrip.value", err)
                         c.require(err <= 2e-3, "roundtrip:optimal-value-of-linear-part",
                                   "after: %r (constant %r), HiGHS on the file's LP %r" % (res[1][1], qconst, fval))
@@ -423,7 +445,10 @@ def run(ctx):
         if eq:
             kw["A_eq"] = np.array([r for r, _ in eq]); kw["b_eq"] = np.array([b for _, b in eq])
         r = linprog(cvec, bounds=[(None, None)] * len(cols), method="highs", **kw)
-        return {0: "optimal", 2: "infeasible", 3: "unbounded"}.get(r.status, "other"), (float(r.fun) if r.status == 0 else None)
+        stack = np.array([row for row, _ in ub + eq]).reshape(len(ub) + len(eq), len(cols))
+        rank_ok = bool(len(cols)) and np.linalg.matrix_rank(stack, tol=1e-9) == len(cols) and \
+            (not eq or np.linalg.matrix_rank(np.array([row for row, _ in eq]), tol=1e-9) == len(eq))
+        return {0: "optimal", 2: "infeasible", 3: "unbounded"}.get(r.status, "other"), (float(r.fun) if r.status == 0 else None), rank_ok
 
     def probe_const(q):
         vs = q.variables()
@@ -694,14 +719,24 @@ def run(ctx):
         vars_ = S.gen_vars(rng)
         g = S.TreeGen(rng, vars_, maxdepth=3, p_sparse=0.1, p_const_first=0.0, inplace=False)
         where = rng.choice(["objective", "constraint"])
+        if where == "objective":
+            to, tc = g.pwl(1, 2, 1), None
+        else:
+            to, tc = g.tree(S.AFF, 1, 1), g.pwl(rng.randint(1, 3), 2, 1)
+        c.cls("nonlp", where)
+        if S.risky(to) or (tc is not None and S.risky(tc)):
+            # `sparse constant - function` can kill the interpreter on the unchanged tree: run in a forked child
+            sig = S.isolated(ctx, c, lambda: nonlp_body(c, vars_, to, tc, where))
+            if sig is not None:
+                c.check(); c.fail("expression-defect:sparse-constant-minus-function-crashes-interpreter", "signal %d" % sig)
+        else:
+            nonlp_body(c, vars_, to, tc, where)
+
+    def nonlp_body(c, vars_, to, tc, where):
         rv = {v.idx: M.variable(v.n, v.name) for v in vars_}
         try:
-            if where == "objective":
-                obj = S.realize(g.pwl(1, 2, 1), rv, M)
-                cons = [rv[vars_[0].idx] <= 10.0]
-            else:
-                obj = S.realize(g.tree(S.AFF, 1, 1), rv, M)
-                cons = [S.realize(g.pwl(rng.randint(1, 3), 2, 1), rv, M) <= 5.0]
+            obj = S.realize(to, rv, M)
+            cons = [rv[vars_[0].idx] <= 10.0] if tc is None else [S.realize(tc, rv, M) <= 5.0]
             p = M.op(obj, cons)
         except Exception:
             ctx.count("skipped.expression-defect")
@@ -722,7 +757,6 @@ def run(ctx):
                 os.unlink(path)
             except OSError:
                 pass
-        c.cls("nonlp", where)
 
     def one(c):
         rng = c.rng
